@@ -57,6 +57,10 @@ def cases(draw):
     ns = draw(st.integers(1, 3))
     nc = draw(st.integers(1, 6))
     names = [f's{i}' for i in range(ns)] + [f'c{j}' for j in range(nc)]
+    tricky = draw(st.integers(0, 2)) == 0
+    if tricky:
+        # a legal block name that itself contains '_not_' (its shortcut is '_not_z_not_s0')
+        names.insert(ns, 'z_not_s0')
 
     def ref(pool=None):
         r = draw(st.integers(0, 9))
@@ -75,7 +79,8 @@ def cases(draw):
         kind = draw(st.sampled_from(['noop', 'noop', 'func', 'and']))
         # blocks computing real values are fed by sources only: the wiring may be cyclic, and only
         # the constant-output probes are stable in a loop
-        pos = [ref(names[:ns] if kind == 'and' else None) for _ in range(draw(st.integers(0, 3)))]
+        srcnames = [n for n in names if n[0] in 'sz']
+        pos = [ref(srcnames if kind == 'and' else None) for _ in range(draw(st.integers(0, 3)))]
         named = {}
         if kind != 'and':
             for nm in draw(st.lists(st.sampled_from(['a', 'b', 'g', 'h']), unique=True, max_size=3)):
@@ -87,7 +92,7 @@ def cases(draw):
                         grp.append(list(grp[0]))        # repeated reference
                     named[nm] = grp
         if not pos and not named:
-            pos = [ref(names[:ns] if kind == 'and' else None)]
+            pos = [ref(srcnames if kind == 'and' else None)]
         cblocks.append({'kind': kind, 'pos': pos, 'named': named})
     events = [{'dest': draw(st.integers(0, ns - 1)), 'byname': draw(st.booleans())}
               for _ in range(draw(st.integers(0, 3)))]
@@ -100,7 +105,7 @@ def cases(draw):
             if draw(st.integers(0, 2)) == 0:
                 f['ctrl'] = '_not_' + f['ctrl']
                 f['byname'] = True
-    case = {'ns': ns, 'cblocks': cblocks, 'events': events, 'filters': filters,
+    case = {'ns': ns, 'tricky': tricky, 'cblocks': cblocks, 'events': events, 'filters': filters,
             'explicit': draw(st.booleans()),
             'order': list(draw(st.permutations(names))), 'negative': None}
     if draw(st.integers(0, 3)) == 0:
@@ -143,6 +148,9 @@ def execute(case):
             for name in case['order']:
                 if name.startswith('s'):
                     objs[name] = edzed.Input(name, initdef=int(name[1:]) + 10)
+                    continue
+                if name.startswith('z'):
+                    objs[name] = edzed.Input(name, initdef=77)
                     continue
                 d = case['cblocks'][int(name[1:])]
                 if d['kind'] == 'noop':
